@@ -146,3 +146,29 @@ def install_all():
     install_clock()
     install_pickle()
     install_hash()
+
+
+class HangDetected(BaseException):
+    """raised by the wall-clock watchdog; a BaseException so that pydra's own `except Exception` handlers cannot swallow it"""
+
+
+class deadline:
+    """wall-clock watchdog for one submission (SIGALRM): loops that the step budgets do not cover are still reported as hangs"""
+
+    def __init__(self, seconds):
+        self.seconds = seconds
+
+    def __enter__(self):
+        import signal
+
+        def handler(signum, frame):
+            raise HangDetected("no result after %d s of wall time" % self.seconds)
+        self._old = signal.signal(signal.SIGALRM, handler)
+        signal.setitimer(signal.ITIMER_REAL, self.seconds)
+        return self
+
+    def __exit__(self, *exc):
+        import signal
+        signal.setitimer(signal.ITIMER_REAL, 0)
+        signal.signal(signal.SIGALRM, self._old)
+        return False
